@@ -1516,6 +1516,8 @@ val collect_tags : catalog -> dir list -> catalog cres
 
 val validate : catalog -> cerr option
 
+val dup_type_error : bytes list -> dir list -> cerr option
+
 val type_without_body : dir list -> cerr option
 
 val same_dir : coords -> coords -> bool
